@@ -201,6 +201,9 @@ func readSexp(toks []string, i int) (string, int) {
 }
 
 // dischargeAll solves obligations in parallel.
+// solveDeadline: end of the solving budget of a check (zero: none)
+var solveDeadline time.Time
+
 func dischargeAll(obs []*Oblig, dir string, timeoutS int, workers int) {
 	// render sequentially (term table is not thread-safe)
 	for i, ob := range obs {
@@ -269,6 +272,13 @@ func dischargeAll(obs []*Oblig, dir string, timeoutS int, workers int) {
 			to := timeoutS
 			if ob.Expect == "sat" && to > 5 {
 				to = 5
+			}
+			if !solveDeadline.IsZero() && time.Now().After(solveDeadline) {
+				// the solving budget of the check is used up (a change that multiplies the obligations): undecided
+				ob.Result = "unknown"
+				ob.Backend = "none(solving budget of the check exhausted)"
+				ob.solverOut = "not attempted: the solving budget of the check was used up by the obligations before this one"
+				return
 			}
 			// all three back ends race (z3 4.8.12 decides some goals the newer ones do not, and vice versa)
 			var first []string
